@@ -39,7 +39,7 @@ def main():
             sh("rm -rf %s && cp -r %s %s" % (tmp, demo, tmp))
             for fn in glob.glob(tmp + "/**/Cargo.toml", recursive=True):
                 s = open(fn).read()
-                s = re.sub(r"/tmp/mut-C[0-9]+", W, s)
+                s = re.sub(r"/tmp/mut-C[0-9]+b?", W, s)
                 s = re.sub(r'path\s*=\s*"(\.\./)+', 'path = "%s/' % W, s)
                 open(fn, "w").write(s)
             sh("rm -f %s/Cargo.lock" % tmp)
